@@ -175,7 +175,8 @@ func zeroFields(k int) Val {
 func runCsDec(k int) func(string, []Val) {
 	return func(tags string, a []Val) {
 		c := csFrom(k, a[1])
-		err := c.decode(a[0].B)
+		var err error
+		watchInput(int64(inCsMsg+k), a[0].B, nil, func() { err = c.decode(a[0].B) })
 		n := c.declared()
 		re := make([]byte, n)
 		if err == nil {
